@@ -445,6 +445,15 @@ class Machine(object):
                 a += b
             except ValueError:
                 pass
+            # set() makes the target a copy of the source, curve included: the copy must then behave like the source
+            c = pt(allc[(salt // 49) % 7], 9 + seed)
+            c.set(b)
+            out.append((c == b, int(c.x), int((c + b).y), c.size_in_bytes()))
+            xa = ECC.construct(curve=["curve25519", "curve448"][salt & 1], seed=data(seed + 3, 32 if not salt & 1 else 56)).pointQ
+            xb = ECC.construct(curve=["curve25519", "curve448"][(salt >> 1) & 1], seed=data(seed + 4, 32 if not (salt >> 1) & 1 else 56)).pointQ
+            out.append(xa == xb)
+            xa.set(xb)
+            out.append((xa == xb, int(xa.x), int((xa * 3).x), xa.size_in_bytes()))
             return out
         if kind == "ec_sign":
             from Crypto.Signature import DSS
